@@ -159,6 +159,7 @@ def main():
     ap.add_argument("--jobs", type=int, default=6)
     ap.add_argument("--only", default="")
     ap.add_argument("--out", default="/tmp/mutsweep.jsonl")
+    ap.add_argument("--skip", default="", help="comma separated result files of earlier runs: their mutants are not run again")
     a = ap.parse_args()
     only = set(filter(None, a.only.split(",")))
     rng = random.Random(a.seed)
@@ -179,6 +180,12 @@ def main():
                 continue
             for desc, node, repl in mutants_of(fn, lines):
                 pool.append((rel, qual, props, desc, (node.lineno, node.col_offset, node.end_lineno, node.end_col_offset), repl, lines[node.lineno - 1].strip()))
+    done = set()
+    for fn in filter(None, a.skip.split(",")):
+        for l in open(fn):
+            r = json.loads(l)
+            done.add((r["file"], r["function"], r["line"], r["mutation"]))
+    pool = [m for m in pool if (m[0], m[1], m[4][0], m[3]) not in done]
     rng.shuffle(pool)
     jobs = [(i,) + m for i, m in enumerate(pool[:a.n])]
     print(f"{len(pool)} possible mutants, running {len(jobs)} with {a.jobs} workers", file=sys.stderr)
